@@ -226,8 +226,10 @@ type knownEntry struct {
 	Commit   string `json:"commit,omitempty"`
 }
 
+func knownPath() string { return envOr("VERIF_KNOWN_FILE", filepath.Join(verif, "known_findings.json")) }
+
 func loadKnown() []knownEntry {
-	b, err := os.ReadFile(filepath.Join(verif, "known_findings.json"))
+	b, err := os.ReadFile(knownPath())
 	if err != nil {
 		return nil
 	}
@@ -304,7 +306,7 @@ func runSim(s *spec, tier string, seed uint64, scratch string) int {
 				"VERIF_PROP="+s.Prop, "VERIF_TIER="+tier, fmt.Sprintf("VERIF_SEED=%d", seed),
 				fmt.Sprintf("VERIF_WORKER=%d", w), fmt.Sprintf("VERIF_WORKERS=%d", workers),
 				fmt.Sprintf("VERIF_BUDGET_S=%d", budget), "VERIF_OUT="+wdir,
-				"VERIF_KNOWN="+filepath.Join(verif, "known_findings.json"),
+				"VERIF_KNOWN="+knownPath(),
 				"VERIF_REPO_DESCRIBE="+strings.TrimSpace(string(desc)),
 				"VERIF_DIR="+verif,
 			)
